@@ -392,6 +392,61 @@ Section Oracles.
     nonempty src && nonempty tgt && no_space src && no_space tgt
     && match expand_home_only src with Ok s' => str_eqb s' src | Exn _ => false end.
 
+  (* ---------------------------------------------------------------- whole files of rules *)
+  Record rule_value := mkrv { v_dir : dspec; v_pat : str; v_exact : bool; v_msg : option str }.
+  Definition write_value (v : rule_value) : str := write_rule (v_dir v) (v_pat v) (v_exact v) (v_msg v).
+  Definition value_effect (v : rule_value) : effect := rule_effect (v_dir v) (v_pat v) (v_exact v) (v_msg v).
+  Definition wf_value (v : rule_value) : bool :=
+    wf_rule (v_dir v) (v_pat v) (v_exact v) (v_msg v) && existsb (fun sp => str_eqb (d_name sp) (d_name (v_dir v))) rule_dirs.
+  Definition no_nl (s : str) : bool := negb (mem_ch NL s).
+  Definition one_line (v : rule_value) : bool :=
+    no_nl (v_pat v) && match v_msg v with Some m => no_nl m | None => true end.
+  Definition write_config (vs : list rule_value) : str := join [NL] (map write_value vs).
+
+  (* ---------------------------------------------------------------- loading (config.py 150-199, dippy.py 297-304, 366-371) *)
+  (* what Path.read_text() of one layer does *)
+  Inductive read_result :=
+  | RText (t : str)            (* read and decoded *)
+  | RAbsent                    (* is_file() false: missing, a directory, a dangling link *)
+  | RPermission                (* PermissionError *)
+  | ROSError                   (* any other OSError (EIO, EISDIR after a race, ...) *)
+  | RDecode                    (* UnicodeDecodeError - a ValueError, not an OSError *)
+  | ROther.                    (* any other Exception subclass *)
+  Inductive load_result := Loaded (cfgs : list config) | ConfigError | Propagated.
+
+  (* _load_config_file: PermissionError and OSError become ConfigError, the rest propagates;
+     an exception escaping parse_config propagates too *)
+  Definition load_file (r : read_result) : res (option config) * bool :=
+    (* (result, is_config_error) *)
+    match r with
+    | RText t => match parse_config t with Ok c => (Ok (Some c), false) | Exn e => (Exn e, false) end
+    | RAbsent => (Ok None, false)
+    | RPermission | ROSError => (Exn ValueError, true)
+    | RDecode | ROther => (Exn ValueError, false)
+    end.
+  (* load_config: user, project, env in order; the first failure ends it *)
+  Fixpoint load_layers (rs : list read_result) (acc : list config) : load_result :=
+    match rs with
+    | [] => Loaded acc
+    | r :: rs' =>
+        match load_file r with
+        | (Ok (Some c), _) => load_layers rs' (acc ++ [c])
+        | (Ok None, _) => load_layers rs' acc
+        | (Exn _, true) => ConfigError
+        | (Exn _, false) => Propagated
+        end
+    end.
+  (* main(): ConfigError => ask envelope; any other Exception => {} ; otherwise the analysis runs *)
+  Inductive stage_answer := AnswerAsk | AnswerDefer | Analyse (cfgs : list config).
+  Definition config_stage (rs : list read_result) : stage_answer :=
+    match load_layers rs [] with
+    | Loaded cs => Analyse cs
+    | ConfigError => AnswerAsk
+    | Propagated => AnswerDefer
+    end.
+  Definition unusable (r : read_result) : bool :=
+    match r with RPermission | ROSError | RDecode | ROther => true | _ => false end.
+
   (* ---------------------------------------------------------------- rule families (C14) *)
   Definition mcp_effect (e : effect) : bool :=
     match e with ERule LMcp _ | ERule LAfterMcp _ => true | _ => false end.
